@@ -175,7 +175,7 @@ def build(job):
         eng.assume(And([z3.Not(z3.Contains(_s(vs[k]), z3.StringVal(":"))) for k in (0, 2, 4)]))
         if not eng.mods.symbolic:
             # real files: cells that the csv dialect cannot carry unchanged are outside the claim
-            if any(ch in v for v in vs for ch in '\r\n\t"\x00') or any(not v for v in vs):
+            if any(ch in v for v in vs for ch in '\r\n\x00'):
                 return "<precondition-not-met: cells the csv dialect cannot carry unchanged>"
         t = tr.Triple(subject=api.Reference(prefix=vs[0], identifier=vs[1]), predicate=api.Reference(prefix=vs[2], identifier=vs[3]),
                       object=api.Reference(prefix=vs[4], identifier=vs[5]))
